@@ -39,35 +39,38 @@ type CallSpec struct { // per call-site overrides inside a function
 }
 
 type FuncContract struct {
-	Key          string // RelString form within the package, e.g. "(*T).Name", "Name", "(*T).Name$1"
-	PkgPath      string
-	Header       string
-	File         string
-	Line         int
-	Props        []string
-	Requires     []*Clause
-	Ensures      []*Clause
-	Modifies     []*Clause
-	HasMod       bool
-	Loops        map[int]*LoopSpec
-	Inline       bool // callers execute the body in place
-	Trusted      bool // body not checked (assumed contract)
-	Pure         bool // result is an uninterpreted function of the arguments; no effects
-	Opaque       bool // fresh result, no effects
-	NonNil       bool // result (first) is non-nil
-	NoPanic      bool // generate nopanic obligations (default true for checked functions)
-	MayPanic     bool
-	Params       []string // for extern contracts: names for receiver+params
-	Asserts      map[string][]*Clause
-	CallSpecs    []*CallSpec
-	Used         bool
-	NoCalls      bool
-	SQLTexts     []string
-	Splits       []*SplitSpec   // case splits applied to every proof obligation of the function
-	Definitional bool           // postconditions that pin the fresh result are applied as definitions (term rewriting) at call sites
-	GhostUpd     []*GhostUpdate // ghost code executed at every return, before the postconditions
-	Allow        []string
-	SchemaOf     string
+	Key            string // RelString form within the package, e.g. "(*T).Name", "Name", "(*T).Name$1"
+	PkgPath        string
+	Header         string
+	File           string
+	Line           int
+	Props          []string
+	Requires       []*Clause
+	Ensures        []*Clause
+	Modifies       []*Clause
+	HasMod         bool
+	Loops          map[int]*LoopSpec
+	Inline         bool // callers execute the body in place
+	Trusted        bool // body not checked (assumed contract)
+	Pure           bool // result is an uninterpreted function of the arguments; no effects
+	Opaque         bool // fresh result, no effects
+	NonNil         bool // result (first) is non-nil
+	NoPanic        bool // generate nopanic obligations (default true for checked functions)
+	MayPanic       bool
+	Params         []string // for extern contracts: names for receiver+params
+	Asserts        map[string][]*Clause
+	CallSpecs      []*CallSpec
+	Used           bool
+	NoCalls        bool
+	SQLTexts       []string
+	Behaviors      []*FuncContract // further behaviours of the same function (each verified separately)
+	Behavior       string
+	AssumedEnsures []*Clause      // postconditions callers may use but the body check does not establish (listed as assumptions)
+	Splits         []*SplitSpec   // case splits applied to every proof obligation of the function
+	Definitional   bool           // postconditions that pin the fresh result are applied as definitions (term rewriting) at call sites
+	GhostUpd       []*GhostUpdate // ghost code executed at every return, before the postconditions
+	Allow          []string
+	SchemaOf       string
 }
 
 type SpecFn struct {
@@ -215,7 +218,7 @@ func parseParams(s string) []SpecParam {
 	return out
 }
 
-var clauseKw = map[string]bool{"split": true, "definitional": true, "set": true, "choose": true, "sqltext": true, "except": true, "allowcalls": true, "nocalls": true, "ensureserror": true, "ensureszero": true, "requires": true, "ensures": true, "modifies": true, "loop": true, "inline": true,
+var clauseKw = map[string]bool{"behavior": true, "ensuresassumed": true, "split": true, "definitional": true, "set": true, "choose": true, "sqltext": true, "except": true, "allowcalls": true, "nocalls": true, "ensureserror": true, "ensureszero": true, "requires": true, "ensures": true, "modifies": true, "loop": true, "inline": true,
 	"trusted": true, "pure": true, "opaque": true, "nonnil": true, "props": true, "maypanic": true, "params": true,
 	"assert": true, "call": true}
 
@@ -360,7 +363,13 @@ func (cs *ContractSet) ParseFile(path, pkgPath string) error {
 					continue
 				}
 				fc.Key = key
-				cs.Funcs[pkgPath+"."+key] = fc
+				if prev, dup := cs.Funcs[pkgPath+"."+key]; dup {
+					// a second block for the same function is an additional behaviour (named by its "behavior" clause)
+					prev.Behaviors = append(prev.Behaviors, fc)
+					fc.Behavior = fmt.Sprintf("b%d", len(prev.Behaviors))
+				} else {
+					cs.Funcs[pkgPath+"."+key] = fc
+				}
 			case "extern":
 				// extern <ssa name> [(p0, p1, ...)]
 				name := it.rest
@@ -478,6 +487,16 @@ func (cs *ContractSet) ParseFile(path, pkgPath string) error {
 			}
 			if curLemma != nil {
 				curLemma.Props = ps
+			}
+		case "behavior":
+			if cur != nil {
+				cur.Behavior = strings.TrimSpace(it.rest)
+			}
+		case "ensuresassumed":
+			if cur != nil {
+				if cl := mkClause(it, curProps); cl != nil {
+					cur.AssumedEnsures = append(cur.AssumedEnsures, cl)
+				}
 			}
 		case "requires", "ensures":
 			if curLemma != nil {
